@@ -17,6 +17,7 @@ sys.path.append(os.path.join(VERIF, ".deps"))
 
 pid, tname, outdir, runs, seed = sys.argv[1], sys.argv[2], sys.argv[3], int(sys.argv[4]), int(sys.argv[5])
 max_len = int(sys.argv[6]) if len(sys.argv) > 6 else 4096
+max_time = int(sys.argv[7]) if len(sys.argv) > 7 else 240
 
 import atheris  # noqa: E402
 
@@ -84,5 +85,5 @@ def test_one_input(data):
 
 os.makedirs(os.path.join(outdir, "corpus"), exist_ok=True)
 flush()
-atheris.Setup([sys.argv[0], f"-runs={runs}", f"-seed={seed or 1}", f"-max_len={max_len}", "-verbosity=0", "-print_final_stats=0", os.path.join(outdir, "corpus")], test_one_input)
+atheris.Setup([sys.argv[0], f"-runs={runs}", f"-seed={seed or 1}", f"-max_len={max_len}", f"-max_total_time={max_time}", "-verbosity=0", "-print_final_stats=0", os.path.join(outdir, "corpus")], test_one_input)
 atheris.Fuzz()
